@@ -1,5 +1,6 @@
 import CkbVerif.Lemmas.EpochNext
 import CkbVerif.Lemmas.EpochCompact
+import CkbVerif.Lemmas.EpochChain
 
 /-!
 # C07 — epoch length, difficulty and per-block issuance arithmetic stay within spec
@@ -387,6 +388,42 @@ theorem epoch_fields_consecutive_across {P : Params} {e o : EpochExt} {hc u ms :
   have : e.length - 1 + 1 = e.length := by omega
   simp only [this, if_true]
   exact ⟨⟨by omega, by omega⟩, hnum, trivial⟩
+
+
+/-! ## whole-chain view (what a node computes for every block; tied by the `node` stream)
+
+`chainStep s ts u`: the block appended to tip `s` gets the tip's epoch, or — when the tip is the
+last block of its epoch — the epoch `next_epoch_ext` computes from the statistics `get_block_epoch`
+collects (uncles and milliseconds since the previous epoch's last block). -/
+
+/-- One block: the tip stays inside its epoch (`ChainInv`), the demanded epoch field is the next
+position after the tip's and is accepted by `EpochVerifier`; a new epoch starts exactly after the
+epoch's last block and is `next_epoch_ext` of the statistics of the finished epoch. -/
+theorem chain_step_epoch_rule {s s' : ChainSt} {ts u field compact : Nat} {head : Bool}
+    (h : chainStep s ts u = some (s', field, compact, head)) (inv : ChainInv s)
+    (hnum : s.cur.number + 1 < 2 ^ 24) :
+    ChainInv s' ∧ s'.tipNumber = s.tipNumber + 1 ∧ field = tipField s' ∧ compact = s'.cur.compact ∧
+      epochVerify (tipField s) field = .ok ∧
+      (head = false → s'.cur = s.cur) ∧
+      (head = true → s.tipNumber + 1 = s.cur.start + s.cur.length ∧
+        nextEpochExt s.P s.cur s.tipNumber s.cur.compact (s.tu - s.lastEndTU) (s.tipTs - s.lastEndTs) = some s'.cur) :=
+  chainStep_spec h inv hnum
+
+/-- `chain_epoch_fields_gap_free`: along ANY chain the whole-chain view produces (any timestamps and
+uncle counts, any number of epochs, lengths from 1 to MAX), consecutive blocks' epoch fields are
+consecutive positions accepted by `EpochVerifier`. -/
+theorem chain_epoch_fields_gap_free (s : ChainSt) (bs : List (Nat × Nat)) (fs : List Nat)
+    (inv : ChainInv s) (hn : s.cur.number + bs.length < 2 ^ 24) (h : chainFields s bs = some fs) :
+    allConsecutive (tipField s) fs :=
+  chainFields_consecutive bs s fs inv hn h
+
+/-- a 2-block genesis epoch followed by a 4-block epoch: fields 0(1/2), 1(0/4), 1(1/4) -/
+example : chainFields
+    { P := { T := 16, initial := 1000, halving := 3 },
+      cur := { number := 0, base := 500, rem := 0, prevHR := 1, start := 0, length := 2, compact := 0x20010000 },
+      lastEndTs := 0, lastEndTU := 0, tu := 0, tipNumber := 0, tipTs := 0 }
+    [(8000, 0), (16000, 0), (24000, 0)] = some [enfPack 0 1 2, enfPack 1 0 4, enfPack 1 1 4] := by
+  decide +kernel
 
 /-! ## compact target / difficulty conversions
 
